@@ -341,6 +341,7 @@ def stepLineRaw (d : DState) (line : String) : DState × String :=
   | _ =>
     if !d.inCase then (d, "no-case")
     else match f with
+    | ["within", _] => if d.s.dead then (d, "skip") else (d, "ok")
     | ["wait", ms] =>
       if d.s.dead then (d, "skip")
       else
